@@ -1671,3 +1671,147 @@ func ordinal(f *ssa.Function, c ssa.CallInstruction) int {
 func site(f *ssa.Function, c ssa.CallInstruction) string {
 	return fmt.Sprintf("%s: %s#%d", fnName(f), calleeName(c), ordinal(f, c))
 }
+
+// cmpHolds evaluates `x op y` for integers.
+func cmpHolds(op token.Token, x, y int64) bool {
+	switch op {
+	case token.EQL:
+		return x == y
+	case token.NEQ:
+		return x != y
+	case token.LSS:
+		return x < y
+	case token.LEQ:
+		return x <= y
+	case token.GTR:
+		return x > y
+	case token.GEQ:
+		return x >= y
+	}
+	return false
+}
+
+// constCmpAdmits: when edge ce tests `subject op const` (either operand
+// order), reports whether the edge is taken for subject == n. relevant is
+// false when the condition is not such a comparison.
+func constCmpAdmits(ce ctrlEdge, subject func(ssa.Value) bool, n int64) (relevant, admits bool) {
+	b, ok := ce.If.Cond.(*ssa.BinOp)
+	if !ok {
+		return false, false
+	}
+	var k int64
+	var isK bool
+	var holds bool
+	switch {
+	case subject(b.X):
+		if k, isK = constInt(b.Y); isK {
+			holds = cmpHolds(b.Op, n, k)
+		}
+	case subject(b.Y):
+		if k, isK = constInt(b.X); isK {
+			holds = cmpHolds(b.Op, k, n)
+		}
+	}
+	if !isK {
+		return false, false
+	}
+	return true, holds == ce.Taken
+}
+
+// contextFlagRules: a per-exchange flag of *martian.Context set by `setter`
+// is what `getter` reports, and stays set: the getter reads a field the setter
+// writes, and every other store to that field in the package (other setters
+// sharing a packed word, helpers) is a read-modify-write of the same field,
+// so that it cannot wipe the flag. Shared by C02.R5 (SkipRoundTrip), C13.R5
+// (APIRequest) and C15.R4 (SkipLogging).
+func contextFlagRules(r *Report, setter, getter string) {
+	w := r.W
+	ctxT := w.Named("", "Context")
+	if ctxT == nil {
+		r.Undecided("M.Context", "UNRESOLVED")
+		return
+	}
+	sf, gf := w.method(ctxT, setter), w.method(ctxT, getter)
+	if sf == nil || gf == nil || sf.Blocks == nil || gf.Blocks == nil {
+		r.Undecided("(*M.Context)."+setter+" / "+getter, "UNRESOLVED")
+		return
+	}
+	r.Touch(sf)
+	r.Touch(gf)
+	written := fieldsWritten(sf)
+	read := fieldsRead(gf)
+	var shared []*types.Var
+	for fo := range written {
+		if _, ok := read[fo]; ok {
+			shared = append(shared, fo)
+		}
+	}
+	r.Decide("sibling", fmt.Sprintf("(*M.Context).%s is what (*M.Context).%s reports", setter, getter), len(shared) > 0, "the getter loads a field the setter stores", "the getter does not read what the setter writes: the mark is never seen", sf.Pos())
+	isRMW := func(st *ssa.Store, fo *types.Var) bool {
+		return anyIn(w.backSlice(st.Val, flowOpt{BinOps: true}), func(v ssa.Value) bool {
+			ld, ok := v.(*ssa.UnOp)
+			if !ok || ld.Op != token.MUL {
+				return false
+			}
+			fa, ok := ld.X.(*ssa.FieldAddr)
+			return ok && fieldObj(fa) == fo
+		})
+	}
+	for _, fo := range shared {
+		// the setter itself sets (constant true / or-ing a bit in), it does not depend on other state
+		for _, st := range written[fo] {
+			b, isB := constBool(st.Val)
+			okSet := (isB && b) || isRMW(st, fo)
+			r.Decide("flow", fmt.Sprintf("(*M.Context).%s sets %s", setter, fo.Name()), okSet, "stores true or adds its bit to the field", "the setter stores something else than true / its own bit", st.Pos())
+		}
+		for _, f := range w.Funcs("") {
+			if f == sf {
+				continue
+			}
+			for _, in := range instrs(f) {
+				st, ok := in.(*ssa.Store)
+				if !ok {
+					continue
+				}
+				fa, ok := st.Addr.(*ssa.FieldAddr)
+				if !ok || fieldObj(fa) != fo || freshBase(fa) {
+					continue
+				}
+				r.Touch(f)
+				r.Decide("flow", fmt.Sprintf("%s does not wipe the mark set by %s", fnName(f), setter), isRMW(st, fo), "its store to "+fo.Name()+" keeps the previous contents (read-modify-write)", fmt.Sprintf("%s overwrites %s, the field %s relies on, without keeping its previous contents: calling it after %s() silently clears the mark", fnName(f), fo.Name(), getter, setter), st.Pos())
+			}
+		}
+	}
+}
+
+// isParamVal: v is parameter p, also when p is captured by a closure and
+// therefore lives in a cell (`t0 = new T (p); *t0 = p; ... *t0`): a load of the
+// cell whose only store is the parameter itself.
+func isParamVal(v ssa.Value, p *ssa.Parameter) bool {
+	if v == ssa.Value(p) {
+		return true
+	}
+	ld, ok := v.(*ssa.UnOp)
+	if !ok || ld.Op != token.MUL {
+		return false
+	}
+	a, ok := ld.X.(*ssa.Alloc)
+	if !ok {
+		return false
+	}
+	sts := storesTo(a)
+	if len(sts) != 1 || sts[0].Val != ssa.Value(p) {
+		return false
+	}
+	// stores from closures that captured the cell
+	for _, f := range p.Parent().AnonFuncs {
+		for _, in := range instrs(f) {
+			if st, isSt := in.(*ssa.Store); isSt {
+				if fv, isFV := st.Addr.(*ssa.FreeVar); isFV && resolveFree(fv) == ssa.Value(a) {
+					return false
+				}
+			}
+		}
+	}
+	return true
+}
